@@ -440,11 +440,26 @@ def _g2(ctx: Context) -> None:
     good_ret = all(_is_result(n) for n in rets)
     # the function end is a raise of not-found: the exit node has only return predecessors (through finally copies)
     fall = acfg.find_path(acfg.entry.id, acfg.exit.id, avoid_nodes=[n.id for n in rets])
-    ck.check("C19.G2", good_ret and bool(rets) and fall is None,
+    def _alts_g2(t_):
+        return [a for x in t_[1] for a in _alts_g2(x)] if t_[0] == "phi" else [t_]
+
+    held = [n for n in rets if n.exprs and not _is_result(n)]
+    via_local = bool(held) and all(
+        (lambda al: any(a[0] == "call" and a[1][0] == "attr" and a[1][2] == "result" for a in al) and all(
+            a == ("const", None) or (a[0] == "call" and a[1][0] == "attr" and a[1][2] == "result") for a in al))(_alts_g2(strip_sites(ctx.terms.of(acfg, n, n.exprs[0]))))
+        for n in held)
+    if via_local and fall is None:
+        # the result is kept in a local that starts as None and is returned behind a `found` flag: whether the flag implies
+        # that the local was set is a relation between two variables this analysis does not track - not decided
+        ck.unknown("C19.G2", "Controller.async_find returns a local that holds a transport's result or its initial None, selected by a flag: "
+                             "that it cannot return without a discovery is not decided", af.loc())
+    else:
+        ck.check("C19.G2", good_ret and bool(rets) and fall is None,
              "Controller.async_find: returns only a transport's result; otherwise it cannot end normally",
              f"{ctx.fkey(af)}:normal-exit", "Controller.async_find can end normally without a discovery", af.loc(),
              acfg.render_path(fall) if fall else None)
-    last = [n for n in acfg.nodes if n.kind == "raise" and not n.frames]
+    # the raise that ends the function: not inside a loop / try / with (an `if not found:` around it is the same raise)
+    last = [n for n in acfg.nodes if n.kind == "raise" and not any(fr[0] in ("loop", "try", "with") for fr in n.frames)]
     lc = set()
     for r in last:
         lc |= {exc for (_d, l, exc) in r.succ if l == "x"}
